@@ -241,6 +241,8 @@ class EnumGen:
             items.append('default')
         if v.tr:
             items.append('transparent')
+        # items no derive of this enum consumes (noise pass): rendered, deliberately invisible to the model
+        items.extend(self.e.extra.get('noise_items', {}).get(v.ident, []))
         if v.ci is not None:
             items.append('ascii_case_insensitive' if v.ci is True and sum(map(ord, v.ident)) % 2 == 0
                          else 'ascii_case_insensitive = %s' % ('true' if v.ci else 'false'))
@@ -258,14 +260,37 @@ class EnumGen:
             if not groups:
                 groups = [len(props)]
             i = 0
+            # what sits between two props groups: nothing / another (unconsumed) strum item as its own attribute /
+            # the groups and that item in ONE list
+            inter = self.e.extra.get('prop_interleave', {}).get(v.ident)
+            seps = []
+            if inter:
+                # every single-use item may occur once per variant
+                if 'EnumMessage' not in self.e.derives and v.det is None:
+                    seps.append('detailed_message = "between groups"')
+                if 'EnumMessage' not in self.e.derives and v.msg is None:
+                    seps.append('message = "between groups"')
+                if 'EnumString' not in self.e.derives and v.ci is None:
+                    seps.append('ascii_case_insensitive = false')
+                seps.append('serialize = "between groups"')
+            bodies = []
             for gsz in groups:
                 chunk = props[i:i + gsz]
                 i += gsz
                 if not chunk:
                     continue
-                body = ', '.join('%s = %s' % (k, rust_str(val) if t == 's' else (str(val) if t == 'i' else ('true' if val else 'false')))
-                                 for k, t, val in chunk)
-                out.append('    #[strum(props(%s))]' % body)
+                bodies.append('props(%s)' % ', '.join('%s = %s' % (k, rust_str(val) if t == 's' else (str(val) if t == 'i' else ('true' if val else 'false')))
+                                                      for k, t, val in chunk))
+            if seps and inter == 'list' and len(bodies) > 1:
+                parts = [bodies[0]]
+                for bi, body in enumerate(bodies[1:]):
+                    parts += [seps[min(bi, len(seps) - 1)], body]
+                out.append('    #[strum(%s)]' % ', '.join(parts))
+            else:
+                for bi, body in enumerate(bodies):
+                    if seps and bi > 0:
+                        out.append('    #[strum(%s)]' % seps[min(bi - 1, len(seps) - 1)])
+                    out.append('    #[strum(%s)]' % body)
         for dline in v.docs:
             out.append('    #[doc = %s]' % rust_str(dline))
         for a in self.e.extra.get('variant_attrs', {}).get(v.ident, []):
@@ -941,6 +966,8 @@ class EnumGen:
         e = self.e
         if self.defs_only:
             out = ['use super::support::*;']
+            if getattr(self, 'local_use', None):
+                out.append(self.local_use)
             if self.shadow:
                 out += ['mod core {}', 'mod std {}', 'mod alloc {}']
             out += self.enum_item(tuple(e.extra.get('base_derives', ('Debug', 'PartialEq', 'Clone'))))
